@@ -48,7 +48,9 @@ FILE_KINDS = ["inc", "inc_literal", "inc_code", "inc_rawhtml", "raw_file", "raw_
               "rst_include", "rst_raw_file", "rst_csv_file", "rst_include_literal",
               # other spellings of the file name: absolute, and docutils' '<...>' "standard include" form (which joins the
               # name onto docutils' own data directory, so an absolute or dotted name inside the brackets reaches any file)
-              "inc_abs", "inc_angle", "inc_angle_literal", "inc_angle_code", "rst_include_angle"]
+              "inc_abs", "inc_angle", "inc_angle_literal", "inc_angle_code", "rst_include_angle",
+              # a file that does not exist: the refusal does not depend on (or reveal) what is on the disk
+              "inc_missing"]
 NEEDS_RAW_TOO = {"raw_file", "raw_url", "rst_raw_file"}
 WRAPS = ["quote", "ul", "ol", "note", "tip", "div", "dd", "foot"]
 
@@ -190,6 +192,8 @@ def build(case, tmpdir):
             elif k == "inc_code":
                 files[f"sent{n}.md"] = f"{vf} = 1\n"
                 body = [f"```{{include}} sent{n}.md", ":code: python", "```"]
+            elif k == "inc_missing":
+                body = [f"```{{include}} nosuch-file-{n}.md", "```"]
             elif k == "inc_abs":
                 files[f"sent{n}.md"] = f"{vf} para\n"
                 body = [f"```{{include}} {tmpdir}/sent{n}.md", "```"]
@@ -327,6 +331,8 @@ def check_case(acc, case, pc=None) -> list[dict]:
             realised[n] = "<s>" in html_on
         elif k == "hardbreak":
             realised[n] = "<br />" in html_on
+        elif k == "inc_missing":
+            realised[n] = f"nosuch-file-{n}.md" in results[(True, True)][1]     # (with both switches on: reported as not found)
         elif k in FILE_KINDS and k != "inc_rawhtml":
             realised[n] = f"VFILE{n}Z" in html_on
         else:
@@ -390,6 +396,8 @@ def check_case(acc, case, pc=None) -> list[dict]:
                 k, n = it["kind"], it["n"]
                 if k in ("strike", "hardbreak"):
                     ok = ("<s>" in html) if k == "strike" else ("<br />" in html)
+                elif k == "inc_missing":
+                    ok = f"nosuch-file-{n}.md" in warn
                 elif k in FILE_KINDS and k != "inc_rawhtml":
                     ok = f"VFILE{n}Z" in html
                 elif k == "inc_rawhtml":
